@@ -705,6 +705,9 @@ class Node(
                 c1.connect(c2)
             if self.parent is not None:
                 self.parent.starting_nodes = parent_starting_nodes
+                # At most the children upstream of this node ran just now, so inputs the
+                # parent remembers must not pass for a run of all its children
+                self.parent._cached_inputs = None
 
     @property
     def cache_hit(self):
